@@ -321,3 +321,9 @@ mut("quote-string-skips-end-test-for-deleted", "C20", "yrs/src/types/weak.rs", "
 mut("quote-xml-embed-no-end-test", "C20", "yrs/src/types/text.rs", "                        if let Some(end) = end {\n                            if item.contains(end) {\n                                // we reached the end of range\n                                break 'LOOP;\n                            }\n                        }\n", "", "C20.j")
 mut("quote-xml-embed-before-start", "C20", "yrs/src/types/text.rs", "                        if start_offset >= 0 {\n                            self.pack_str();\n                            if let Some(value) = item.content.get_first() {", "                        if true {\n                            self.pack_str();\n                            if let Some(value) = item.content.get_first() {", "C20.j")
 mut("quote-xml-benign-started-flag-form", "C20", "yrs/src/types/text.rs", "                        if start_offset >= 0 {\n                            self.pack_str();\n                            if let Some(value) = item.content.get_first() {", "                        if !(start_offset < 0) {\n                            self.pack_str();\n                            if let Some(value) = item.content.get_first() {", "", kind="benign")
+mut("anchor-head-shortcut-from-id", "C14", "yrs/src/sticky_index.rs", "            index -= 1;\n        }\n\n        let mut walker = BlockIter::new(branch);",
+    "            index -= 1;\n        } else if index == 0 {\n            if let Some(first) = branch.start {\n                return Some(Self::from_id(*first.id(), assoc));\n            }\n        }\n\n        let mut walker = BlockIter::new(branch);", "C14.c")
+mut("siblings-back-tests-neighbour", "C17", "yrs/src/types/xml.rs", "        while let Some(item) = self.current.as_deref() {\n            self.current = item.left;\n            if let Some(left) = self.current.as_deref() {\n                if !left.is_deleted() {",
+    "        while let Some(item) = self.current {\n            self.current = item.left;\n            if let Some(left) = self.current.as_deref() {\n                if !item.is_deleted() {", "C17.b")
+mut("attr-union-by-value-only", "C16", "yrs/src/id_map.rs", "            if !self.0.contains(attr) {\n                self.0.push(attr.clone());", "            if !self.0.iter().any(|a| a.value() == attr.value()) {\n                self.0.push(attr.clone());", "C16.i")
+mut("attr-union-benign-any-eq", "C16", "yrs/src/id_map.rs", "            if !self.0.contains(attr) {\n                self.0.push(attr.clone());", "            if !self.0.iter().any(|a| a == attr) {\n                self.0.push(attr.clone());", "", kind="benign")
